@@ -21,9 +21,9 @@ def register(check):
           level="exploration",
           rule="cases are (family meta|nonutf8, configuration, seed, gated?, parked?) from the tier's fixed list; scripts draw statuses (17 codes, messages, details), "
                "header/trailer/request metadata (absent, empty, multi-valued, -bin), handler call orders and caller Header()/Trailer() positions from the PRNG; "
-               "non-trivial = the outcome oracle compared at least one terminal result with the handler's scripted status; distinct = hash of (family, cfg, per-RPC op/outcome sequence)",
+               "non-trivial = the outcome oracle compared at least one terminal result with the handler's scripted status; distinct = hash of (family, cfg, per-RPC op/outcome sequence) Family sharedmd: handlers pass one long-lived header / trailer map in every RPC of a run followed by per-request values; same exact oracle.",
           nontrivial="outcome_checked",
-          floors={"quick": {"outcome_checked": 500, "header_reads_checked": 300, "trailer_reads_checked": 500, "request_md_checked": 200, "gate_releases": 1500, "yield:client.finish.betweenPublish": 200, "nonutf8_probes": 6},
+          floors={"quick": {"sharedmd_rpcs": 100, "outcome_checked": 500, "header_reads_checked": 300, "trailer_reads_checked": 500, "request_md_checked": 200, "gate_releases": 1500, "yield:client.finish.betweenPublish": 200, "nonutf8_probes": 6},
                   "thorough": {"outcome_checked": 15000, "header_reads_checked": 9000, "trailer_reads_checked": 15000, "gate_releases": 60000}},
           assumptions=COMMON_ASSUMPTIONS)
     check("C18",
@@ -39,18 +39,18 @@ def register(check):
           level="fault_enumeration",
           rule="raw-client conversations generated from the protocol grammar (settings awaited, a finished stream, a well-formed bystander stream, 1-3 victim streams of the four shapes with chunked messages) "
                "x the catalogue of single-frame deviations x positions (quick: every 7th position, thorough: every position) x {forward, reverse}, plus PRNG multi-mutations; each judged by the sequential reference classifier; "
-               "non-trivial = conversation reached the verdict stage; distinct = distinct (deviation, position, configuration, observed handler op shape)",
+               "non-trivial = conversation reached the verdict stage; distinct = distinct (deviation, position, configuration, observed handler op shape) Family contoverrun: continuation data past the announced size with nothing after it is failed with InvalidArgument at once, 400 further frames ignored without heap growth; half-close / close frames inside a message are not an end of stream (D23, D24); preamble deviations before the first RPC end the tunnel.",
           nontrivial="raw_conversations",
-          floors={"quick": {"raw_conversations": 300, "raw_expect_tunnel_dead": 30, "raw_expect_tunnel_alive": 200, "raw_clean_streams": 400, "raw_refused_streams": 10, "raw_handler_msgs_checked": 500},
+          floors={"quick": {"contoverrun_runs": 80, "raw_half_close_inside_message": 50, "rawsrv_close_inside_message": 20, "raw_conversations": 300, "raw_expect_tunnel_dead": 30, "raw_expect_tunnel_alive": 200, "raw_clean_streams": 400, "raw_refused_streams": 10, "raw_handler_msgs_checked": 500},
                   "thorough": {"raw_conversations": 8000, "raw_expect_tunnel_dead": 800, "raw_clean_streams": 10000, "raw_refused_streams": 100}},
           assumptions=COMMON_ASSUMPTIONS + ["only the classes the documentation pins are demanded exactly (see DESIGN.md C09); other deviations must fail only their stream or be ignored"])
     check("C04",
           level="fault_enumeration",
           rule="fault injection by enumeration: for each termination cause (Close, cancel / deadline of the opening context, Stop, transport break, reset by the network server, carrier send failure in either direction) "
                "x each number k of frames delivered before the strike (gated carrier; quick: every 3rd k in 0..72, thorough: every k) x {forward, reverse} x {flow control, revision zero}, over a base workload holding RPCs of all four shapes in every phase; "
-               "non-trivial = the lifecycle oracle judged at least one terminal result; distinct = distinct (cause, k, configuration, observed operation/outcome shape)",
+               "non-trivial = the lifecycle oracle judged at least one terminal result; distinct = distinct (cause, k, configuration, observed operation/outcome shape) A goroutine of the form <-Done(); Err() reads the cause while the channel's own shutdown is held after its tear-down callback; revision zero is reached in every way (either side, both, a peer that does not negotiate).",
           nontrivial="terminal_results_checked",
-          floors={"quick": {"termination_runs": 500, "fault_mid_traffic": 250, "fault_at_quiescence": 50, "terminal_results_checked": 3000, "leak_check_done": 500},
+          floors={"quick": {"termination_err_read_as_done_closes": 400, "termination_runs": 500, "fault_mid_traffic": 250, "fault_at_quiescence": 50, "terminal_results_checked": 3000, "leak_check_done": 500},
                   "thorough": {"termination_runs": 3500, "fault_mid_traffic": 1500, "terminal_results_checked": 20000}},
           assumptions=COMMON_ASSUMPTIONS + ["'nothing hangs' is decided as: no operation open at quiescence after the cause struck and one hour of virtual time passed"])
     check("C07",
@@ -77,9 +77,9 @@ def register(check):
           rule="(a) flow-control core in isolation: the library's private sender/receiver pair wired over two FIFO queues in a synctest bubble; every atomic-level step (load, before-wait, before-CAS, reserved, update-added, before-credit) and every wire delivery is parked for a PRNG-chosen virtual duration, "
                "which imposes a random total order on those steps; windows {1,3,10,100,16384,65536}, boundary sizes, consumer pacing {eager, naps, stops mid-way}, cancellation at a random step; conservation monitor after every event, progress oracle at quiescence; "
                "(b) whole tunnels {forward, reverse, nested} x carrier capacity {unbounded,1,4}: a stream of 6-15 messages (0 B..200 kB, total >> window) whose reader is stepped one message at a time, judged on the tap at every quiescent point, with unary round trips in between; "
-               "non-trivial = a conservation/progress obligation was evaluated; distinct = distinct set of observed step orders (a) or op/outcome shape (b)",
+               "non-trivial = a conservation/progress obligation was evaluated; distinct = distinct set of observed step orders (a) or op/outcome shape (b) A second stream's parked sender is cancelled mid-run; in a third of the isolated-core runs credit is coalesced into updates larger than one chunk.",
           nontrivial="tap_events",
-          floors={"quick": {"fccore_runs": 4000, "fccore_waits_entered": 3000, "fccore_update_between_load_and_wait": 300, "fccore_sender_observed_blocked": 300, "fccore_cancelled_runs": 200, "progress_runs": 150, "progress_blocked_points": 300, "fcstress_rounds": 80},
+          floors={"quick": {"progress_parked_sender_cancelled": 40, "fccore_coalesced_credit_updates": 100, "fccore_runs": 4000, "fccore_waits_entered": 3000, "fccore_update_between_load_and_wait": 300, "fccore_sender_observed_blocked": 300, "fccore_cancelled_runs": 200, "progress_runs": 150, "progress_blocked_points": 300, "fcstress_rounds": 80},
                   "thorough": {"fccore_runs": 200000, "fccore_waits_entered": 150000, "fccore_update_between_load_and_wait": 15000, "progress_runs": 5000, "progress_blocked_points": 10000}},
           assumptions=COMMON_ASSUMPTIONS + ["unbounded total volume is sampled up to a few MB per stream; 'never strands' is decided at bubble quiescence (nothing runnable, no timer pending)"])
     check("C06",
@@ -94,17 +94,17 @@ def register(check):
     check("C13",
           level="exploration",
           rule="the online wire monitor (per-stream protocol automaton on both directions of every carrier stream) runs on every frame of a stratified union of the C01-C12, C16, C17 workloads; "
-               "non-trivial = at least one frame emitted by a library endpoint was judged; distinct = distinct (family, cfg, inputs, op/outcome shape)",
+               "non-trivial = at least one frame emitted by a library endpoint was judged; distinct = distinct (family, cfg, inputs, op/outcome shape) Family latewrites: the caller cancels / times out before the handler wrote anything, then the handler runs one of six write scripts on the finished stream.",
           nontrivial="wire_frames",
-          floors={"quick": {"wire_frames": 150000, "wire_data_frames": 60000, "wire_messages": 30000, "wire_streams": 8000, "close_frame_checks": 3000},
+          floors={"quick": {"latewrites_runs": 80, "wire_frames": 150000, "wire_data_frames": 60000, "wire_messages": 30000, "wire_streams": 8000, "close_frame_checks": 3000},
                   "thorough": {"wire_frames": 4000000, "wire_streams": 200000, "close_frame_checks": 80000}},
           assumptions=COMMON_ASSUMPTIONS + ["frames emitted by raw (harness) peers are not judged; legal API usage only"])
     check("C14",
           level="exploration",
           rule="stream-table hooks are read at quiescent points and goroutine dumps (bubble goroutines attributed by function) are taken after tear-down + 1h of virtual time, on a stratified union of the C01-C12, C16, C17 workloads with emphasis on abnormal endings "
-               "(every termination cause at every k, every cancel point, raw-peer deviations); non-trivial = the leak check ran on a scenario that produced tunnel traffic; distinct = distinct (family, cfg, inputs, op/outcome shape)",
+               "(every termination cause at every k, every cancel point, raw-peer deviations); non-trivial = the leak check ran on a scenario that produced tunnel traffic; distinct = distinct (family, cfg, inputs, op/outcome shape) Family sendfail: unary calls whose request cannot be encoded leave nothing in either table, no handler, no goroutine.",
           nontrivial="leak_check_done",
-          floors={"quick": {"leak_check_done": 3000, "table_checks": 3000, "termination_runs": 500, "cancel_runs": 500, "raw_conversations": 300},
+          floors={"quick": {"sendfail_calls": 10, "leak_check_done": 3000, "table_checks": 3000, "termination_runs": 500, "cancel_runs": 500, "raw_conversations": 300},
                   "thorough": {"leak_check_done": 60000, "table_checks": 60000}},
           assumptions=COMMON_ASSUMPTIONS + ["goroutines are attributed to the library if their stack has a github.com/jhump/grpctunnel frame"])
     check("C08",
@@ -121,36 +121,36 @@ def register(check):
           level="fault_enumeration",
           rule="enumeration: raw tunnel clients send {0,1,2,3,6} request messages (sizes incl. 20 kB = split across chunks, 16384, 0) for each of the four shapes x half-close {at the end, after the first message, never, cancel instead} x {sequential, burst} x {forward, reverse}; "
                "raw tunnel servers send 0 / 1 / 2 / truncated responses to callers of each shape; real applications issue a second send on a non-streaming side in every configuration (wire checked for a second envelope); "
-               "non-trivial = a shape verdict was reached; distinct = distinct (shape, half-close position, count, cfg, outcome shape)",
+               "non-trivial = a shape verdict was reached; distinct = distinct (shape, half-close position, count, cfg, outcome shape) Also a second send after a first one that failed half-way (parked on the window, serving-side deadline).",
           nontrivial="tap_events",
-          floors={"quick": {"shape16_runs": 300, "shape16_non_streaming_checked": 150, "shape16_two_requests_cases": 40, "appsend16_second_sends": 20, "rawsrv_conversations": 60},
+          floors={"quick": {"appsend16_second_send_after_failed_first": 20, "shape16_runs": 300, "shape16_non_streaming_checked": 150, "shape16_two_requests_cases": 40, "appsend16_second_sends": 20, "rawsrv_conversations": 60},
                   "thorough": {"shape16_runs": 9000, "shape16_two_requests_cases": 1200, "appsend16_second_sends": 600}},
           assumptions=COMMON_ASSUMPTIONS + ["'success' for a non-server-streaming caller is judged as the generated stubs see it: Invoke returning nil, or a response message followed by end-of-stream"])
     check("C10",
           level="exploration",
           rule="four in-flight RPCs (bidi, server-stream with error status + details, unary, client-stream; trailers; 16 kB..100 kB messages) started one per step; graceful shutdown initiated at every step boundary 0..6; 0..4 RPCs of rotating shapes attempted afterwards; "
                "x {forward InitiateShutdown, reverse GracefulStop with 0/1/3 tunnels} x {gate-driven random frame interleaving, 1 ms carrier latency, plain} x Stop-after-GracefulStop or peer hang-up; "
-               "non-trivial = at least one late or in-flight RPC judged; distinct = distinct (tunnels, step, late, mode, cfg, op/outcome shape)",
+               "non-trivial = at least one late or in-flight RPC judged; distinct = distinct (tunnels, step, late, mode, cfg, op/outcome shape) Lifecycle step Serve||Stop: a Serve call parked before its registration while Stop (or GracefulStop then Stop) runs must be refused and leave no tunnel; family drainopen: RPCs on a tunnel opened while draining are refused with Unavailable.",
           nontrivial="shutdown_runs",
-          floors={"quick": {"shutdown_runs": 300, "shutdown_late_rpcs": 500, "shutdown_inflight_checked": 500, "gracefulstop_observed_waiting": 100, "gate_releases": 5000},
+          floors={"quick": {"drainopen_runs": 4, "lifecycle_serve_racing_stop": 50, "shutdown_runs": 300, "shutdown_late_rpcs": 500, "shutdown_inflight_checked": 500, "gracefulstop_observed_waiting": 100, "gate_releases": 5000},
                   "thorough": {"shutdown_runs": 8000, "shutdown_late_rpcs": 14000, "shutdown_inflight_checked": 14000}},
           assumptions=COMMON_ASSUMPTIONS + ["'in flight' = handler already invoked when the shutdown call was issued; 'afterwards' = started after the shutdown call returned (forward) / was observed blocked (reverse)"])
     check("C11",
           level="exploration",
           rule="configuration table: library<->library {enabled, client-disabled, server-disabled, both-disabled, header-stripped legacy} x {forward, reverse, nested-ff, nested-rf} with mixed-shape workloads up to 200 kB; real server {enabled, disabled} <-> scripted revision-zero client and real client {enabled, disabled} <-> scripted revision-zero server, "
                "all four shapes with messages larger than a window; raw servers sending every settings variant (revision lists 01/10/1/0/empty/unknown/unknown+0/unknown+1/duplicates/many, windows 1/100/16384/2^32-1/0, wrong stream ids, wrong first frame x4, end of stream, error, silence, settings twice) "
-               "x {forward, reverse} x client {enabled, disabled}; judged by the wire monitor (settings presence, revision, window_update alphabet) and API outcomes; non-trivial = a negotiation verdict was reached; distinct = distinct (family, cfg, variant, outcome shape)",
+               "x {forward, reverse} x client {enabled, disabled}; judged by the wire monitor (settings presence, revision, window_update alphabet) and API outcomes; non-trivial = a negotiation verdict was reached; distinct = distinct (family, cfg, variant, outcome shape) Family drainopen: a forward tunnel opened while the handler drains comes up on the configured revision.",
           nontrivial="tap_events",
-          floors={"quick": {"settings_runs": 100, "settings_expect_ok": 40, "settings_expect_error": 30, "settings_expect_blocked": 4, "legacy_client_runs": 4, "legacy_server_runs": 4, "interop_rpcs_checked": 150, "legacy_rpcs_checked": 16, "rpcs": 40},
+          floors={"quick": {"drainopen_runs": 4, "settings_runs": 100, "settings_expect_ok": 40, "settings_expect_error": 30, "settings_expect_blocked": 4, "legacy_client_runs": 4, "legacy_server_runs": 4, "interop_rpcs_checked": 150, "legacy_rpcs_checked": 16, "rpcs": 40},
                   "thorough": {"settings_runs": 4000, "interop_rpcs_checked": 6000, "legacy_rpcs_checked": 600}},
           assumptions=COMMON_ASSUMPTIONS + ["an endpoint with flow control disabled still advertises negotiation and exchanges settings listing only revision zero: conformant, not flagged"])
     check("C12",
           level="exploration",
           rule="PRNG histories of 12-31 steps over 3-6 tunnel slots with affinity keys {a,a,b,nil,a,b}: open, stop from the client end, Close from the server end, transport break, cancel of the opener's context, tunnel dying during registration (break while the handler is parked between its registration steps), "
                "WaitForReady on every key, and routing bursts (n..2n RPCs through AsChannel / KeyAsChannel) ; a model of the open set is compared with AllReverseTunnels, Ready, the verif registry lengths and pending WaitForReady calls at every quiescent point; with and without parks at the five registration yield points; "
-               "non-trivial = at least one quiescent comparison; distinct = distinct (cfg, op/outcome shape of the routed RPCs)",
+               "non-trivial = at least one quiescent comparison; distinct = distinct (cfg, op/outcome shape of the routed RPCs) Family callbackcfg: only one of the two callbacks configured (or both), tunnels ended by Stop / channel Close / context cancellation / a broken transport: exactly one call of each configured callback per tunnel.",
           nontrivial="registry_quiescent_checks",
-          floors={"quick": {"registry_runs": 700, "registry_quiescent_checks": 5000, "registry_routed_rpcs": 2000, "registry_rr_windows": 1000, "registry_died_during_registration": 150, "registry_waiters_released": 100, "registry_unroutable_rpcs": 200, "yield:rev.open.betweenAdds": 1000},
+          floors={"quick": {"callbackcfg_tunnels": 20, "registry_runs": 700, "registry_quiescent_checks": 5000, "registry_routed_rpcs": 2000, "registry_rr_windows": 1000, "registry_died_during_registration": 150, "registry_waiters_released": 100, "registry_unroutable_rpcs": 200, "yield:rev.open.betweenAdds": 1000},
                   "thorough": {"registry_runs": 11000, "registry_quiescent_checks": 200000, "registry_routed_rpcs": 80000}},
           assumptions=COMMON_ASSUMPTIONS + ["quiescent consistency is what the property states; linearizability of the two-level registry is not demanded (DESIGN.md C12)"])
     check("C17",
